@@ -503,7 +503,7 @@ func runLive(c *vrun.Case) vrun.Result {
 func TestC07ResumeSideBySide(t *testing.T) {
 	e := vrun.LoadEnv()
 	meta := vrun.Meta{Property: "C07", Workload: "TestC07ResumeSideBySide", Total: e.Pick(200, 20000),
-		Rule: "virtual time (the C05 scenario engine): at least one reliable and one non-reliable upstream plus 0-2 downstreams on one connection, 1-2 transport failures so that the streams resume side by side, acks partly withheld. Oracle: every reliable stream must satisfy the C02 no-loss oracle from its own ledger (so a neighbour's resume must not cost it a stored chunk), no stream's ack hook may report a result the broker did not send for that stream, and the recorded history of the connection's shared sent storage (recording wrapper around the real storage) must be linearizable per stream id against the per-stream map model. non-trivial = a fault fired and both a reliable and a non-reliable stream resumed; distinct = (QoS mix, fault positions)",
+		Rule: "virtual time (the C05 scenario engine): at least one reliable and one non-reliable upstream plus 0-2 downstreams on one connection, 1-2 transport failures so that the streams resume side by side, acks partly withheld; in a third of the cases the application's logger blocks 0.3-10 s at one step of the reconnect / resume procedure. Oracle: every reliable stream must satisfy the C02 no-loss oracle from its own ledger (so a neighbour's resume must not cost it a stored chunk), no stream's ack hook may report a result the broker did not send for that stream, and the recorded history of the connection's shared sent storage (recording wrapper around the real storage) must be linearizable per stream id against the per-stream map model. non-trivial = a fault fired and both a reliable and a non-reliable stream resumed; distinct = (QoS mix, fault positions)",
 	}
 	vrun.Loop(t, meta, 0, func(c *vrun.Case) vrun.Result {
 		r := c.Rng
@@ -519,6 +519,15 @@ func TestC07ResumeSideBySide(t *testing.T) {
 			cls := [][2]any{{memnet.C2S, "UpstreamChunk"}, {memnet.S2C, "UpstreamChunkAck"}, {memnet.C2S, "Ping"}}[r.Intn(3)]
 			s.Faults = append(s.Faults, reconlib.Fault{Trigger: memnet.Trigger{Dir: cls[0].(memnet.Dir), Class: cls[1].(string), Ordinal: 2 + r.Intn(6), After: r.Intn(2) == 0,
 				Mode: []memnet.Mode{memnet.Sever, memnet.WFail, memnet.REOF, memnet.Blackhole}[r.Intn(4)]}, DialDelayMs: []int{0, 1, 500}[r.Intn(3)]})
+		}
+		if r.Intn(3) == 0 {
+			// the application's logger blocks at one step of the reconnect / resume procedure; half of these also let
+			// the retry's link die the moment the first stream has resumed on it
+			s.SlowLog = reconlib.SlowLogSites[r.Intn(len(reconlib.SlowLogSites))]
+			s.SlowLogMs = []int{300, 3000, 10000}[r.Intn(3)]
+			if r.Intn(2) == 0 {
+				s.Faults[0].NextLink = []memnet.Trigger{{Dir: memnet.S2C, Class: "UpstreamResumeResponse", Ordinal: 1, After: true, Mode: []memnet.Mode{memnet.Sever, memnet.REOF}[r.Intn(2)]}}
+			}
 		}
 		var res vrun.Result
 		ok, dump := vrun.Watchdog(120*time.Second, func() {
